@@ -19,10 +19,10 @@ pub fn generate(prop: &str, r: &mut Rng, id: usize, thorough: bool) -> Group {
         "C04" => if r.chance(8) { gen_c04_arith(r, id) } else if r.chance(7) { gen_c04_order_long(r, id) } else { crate::oracle_b::gen_c04(r, id) },
         "C05" => gen_c05(r, id, thorough),
         "C06" => gen_c06(r, id),
-        "C07" => gen_c07(r, id),
+        "C07" => gen_c07(r, id, thorough),
         "C08" => gen_c08(r, id, thorough),
         "C09" => gen_c09(r, id),
-        "C10" => gen_c10(r, id),
+        "C10" => gen_c10(r, id, thorough),
         "C11" => gen_c11(r, id),
         "C12" => gen_c12(r, id),
         "C13" => gen_c13(r, id),
@@ -538,12 +538,19 @@ pub fn gen_c06(r: &mut Rng, id: usize) -> Group {
 
 // ---------------------------------------------------------------------------------- C07
 
-pub fn gen_c07(r: &mut Rng, id: usize) -> Group {
+/// thorough only: EVERY ordered pair of the universe (with a third value drawn at random) through the six comparison
+/// functions and the two sort functions
+pub fn c07_exhaustive_size() -> usize {
+    let n = key_universe_large().len();
+    n * n
+}
+
+pub fn gen_c07(r: &mut Rng, id: usize, thorough: bool) -> Group {
     let u = key_universe_large();
-    if r.chance(35) {
+    let exhaustive = thorough && id < c07_exhaustive_size();
+    if exhaustive || r.chance(35) {
         // order axioms / comparison functions on triples through the expression functions
-        let a = r.pick(&u).clone();
-        let b = r.pick(&u).clone();
+        let (a, b) = if exhaustive { (u[id / u.len()].clone(), u[id % u.len()].clone()) } else { (r.pick(&u).clone(), r.pick(&u).clone()) };
         let c3 = r.pick(&u).clone();
         let rec = V::Obj(vec![("a".into(), a), ("b".into(), b), ("c".into(), c3)]);
         let mut c = case(format!("C07-{id}"));
@@ -556,7 +563,7 @@ pub fn gen_c07(r: &mut Rng, id: usize) -> Group {
         let mut g = Group::new(vec![c]);
         g.values = vec![rec];
         g.tag = "triple".into();
-        g.labels.push("kind:triple".into());
+        g.labels.push(if exhaustive { "kind:exhaustive-pairs".into() } else { "kind:triple".into() });
         return g;
     }
     if r.chance(25) {
@@ -711,7 +718,15 @@ pub fn gen_c09(r: &mut Rng, id: usize) -> Group {
     g
 }
 
-pub fn gen_c10(r: &mut Rng, id: usize) -> Group {
+/// thorough only: EVERY ordered pair of the pool's spellings as a stream `a b a b` under --unique, with what `=`
+/// says about the pair
+pub const C10_POOL_SIZE: usize = 49;
+pub fn c10_exhaustive_size() -> usize {
+    C10_POOL_SIZE * C10_POOL_SIZE
+}
+
+pub fn gen_c10(r: &mut Rng, id: usize, thorough: bool) -> Group {
+    let forced: Option<(usize, usize)> = if thorough && id < c10_exhaustive_size() { Some((id / C10_POOL_SIZE, id % C10_POOL_SIZE)) } else { None };
     // universe with many repeats and numerically equal spellings; serialised with spelling variety
     let spell_pool: &[&str] = &["1", "1.0", "1e0", "10e-1", "2", "2.0", "\"a\"", "\"\\u0061\"", "\"b\"", "null", "true", "[1,2]", "[1.0,2]", "[1, 2]", "{\"a\":1}", "{\"a\":1.0}", "{\"a\": 1}",
                               "0.5", "5e-1", "\"\"", "[]", "{}", "[[1]]", "[[1.0]]", "\"é\"", "\"\\u00e9\"", "100", "1e2", "1E2",
@@ -720,15 +735,16 @@ pub fn gen_c10(r: &mut Rng, id: usize) -> Group {
                               // neighbouring doubles: different numbers, however close
                               "0.3", "0.30000000000000004", "[0.3]", "[0.30000000000000004]", "{\"a\":0.3}", "{\"a\":0.30000000000000004}", "1e-20", "2e-20",
                               "0.1", "0.10000000000000002", "3e-1"];
-    let n = r.range(0, 40);
+    assert_eq!(spell_pool.len(), C10_POOL_SIZE);
+    let n = if forced.is_some() { 4 } else { r.range(0, 40) };
     let mut text = String::new();
-    let selections = r.below(3);
+    let selections = if forced.is_some() { id % 2 } else { r.below(3) };
     // which spelling every row carries in `k` / `j` (None = member absent): the oracle needs it
     let mut row_keys: Vec<(Option<usize>, Option<usize>)> = vec![];
     // a run draws from a small part of the pool, so that every pair of its spellings can be put to `=`
-    let sub: Vec<usize> = (0..r.range(2, 9)).map(|_| r.below(spell_pool.len())).collect();
+    let sub: Vec<usize> = match forced { Some((a, b)) => vec![a, b], None => (0..r.range(2, 9)).map(|_| r.below(spell_pool.len())).collect() };
     for i in 0..n {
-        let ki = *r.pick(&sub);
+        let ki = match forced { Some((a, b)) => if i % 2 == 0 { a } else { b }, None => *r.pick(&sub) };
         let k = spell_pool[ki];
         if selections > 0 {
             let mut fields = vec![];
@@ -793,6 +809,9 @@ pub fn gen_c10(r: &mut Rng, id: usize) -> Group {
     // spelling index of `null` (rows dropped by the filter when nothing is selected)
     g.labels.push(format!("selections:{selections}"));
     g.labels.push(format!("rows:{}", bucket(n)));
+    if forced.is_some() {
+        g.labels.push("kind:exhaustive-pairs".into());
+    }
     g
 }
 
